@@ -189,6 +189,76 @@ func c15Prov(c *core.Ctx) {
 			}
 		})
 		c.Decide(ok, rule, "aggoracle.(*AggOracle).processLatestGER#target-writes", pl.Pos(), fmt.Sprintf("the retry target is written only with getLastFinalizedGER's first result (%d writes)", n))
+		// a retry target may stick only while the syncer has not reached the sampled block; on any other outcome
+		// (success: 0; nothing found at or below the block; other errors) the next tick must sample finality again,
+		// or newer finalized roots are never looked at. Accepted: the store is dominated by the success edge of the
+		// lookup, or by errors.Is(err, ErrBlockNotProcessed).
+		var look *ssa.Call
+		core.Instrs(pl, func(i ssa.Instruction) {
+			if cl, isC := i.(*ssa.Call); isC && core.IsCallTo(i, "(*aggoracle.AggOracle).getLastFinalizedGER") {
+				look = cl
+			}
+		})
+		if look != nil {
+			allowed := core.NilEdgesRes(pl, core.ErrValueOf(look), true)
+			allowed = append(allowed, core.TermEdges(pl, sx, func(s string, _ *core.Term) bool {
+				return strings.HasPrefix(s, "errors.Is(") && strings.Contains(s, "l1infotreesync.ErrBlockNotProcessed")
+			}, true)...)
+			okDom := len(allowed) > 0
+			core.Instrs(pl, func(i ssa.Instruction) {
+				st, isS := i.(*ssa.Store)
+				if !isS || st.Addr != ssa.Value(pl.Params[2]) {
+					return
+				}
+				if f := core.ReachableWithout(core.After(look), allowed, func(x ssa.Instruction) bool { return x == i }); f != nil {
+					okDom = false
+				}
+			})
+			c.Decide(okDom, rule, "aggoracle.(*AggOracle).processLatestGER#target-sticks-only-while-behind", pl.Pos(), "the retry target is stored only after a successful lookup (value 0) or for ErrBlockNotProcessed; it cannot stick on ErrNotFound or other errors")
+		}
+	}
+}
+
+// c15Until: "latest info until block n" is what its name says, for the n that was asked.
+func c15Until(c *core.Ctx) {
+	const rule = "C15-until"
+	checkOrdered(c, rule, []orderedSpec{
+		{"l1infotreesync", "processor", "GetLatestInfoUntilBlock", "L1INFO_LEAF", "DESC", []string{"BLOCK_NUM <= $1"}, [][]string{{"BLOCK_NUM", "BLOCK_POS"}, {"POSITION"}}, []string{"blockNum"}},
+	})
+	sx := core.NewSymx()
+	fa := c.MustFn(rule, "l1infotreesync", "L1InfoTreeSync", "GetLatestInfoUntilBlock")
+	if fa != nil {
+		ok := false
+		for _, rc := range core.ReturnCases(fa) {
+			if s := sx.Of(rc.Values[0]).String(); s == "(*l1infotreesync.processor).GetLatestInfoUntilBlock(s.processor, ctx, blockNum)#0" {
+				ok = true
+			} else if s != "const(nil)" {
+				ok = false
+				break
+			}
+		}
+		c.Decide(ok, rule, "l1infotreesync.(*L1InfoTreeSync).GetLatestInfoUntilBlock#pass-through", fa.Pos(), "the façade hands the caller's block number to the store and returns its leaf")
+	}
+	// the query is refused when the syncer has not reached the block (so "nothing newer below n" is meaningful)
+	pr := c.MustFn(rule, "l1infotreesync", "processor", "GetLatestInfoUntilBlock")
+	if pr != nil {
+		behind := core.TermEdges(pr, sx, func(s string, _ *core.Term) bool {
+			return strings.HasSuffix(s, " < blockNum)") && strings.Contains(s, "getLastProcessedBlockWithTx(")
+		}, false)
+		behind = append(behind, core.TermEdges(pr, sx, func(s string, _ *core.Term) bool {
+			return strings.HasPrefix(s, "(blockNum > ") && strings.Contains(s, "getLastProcessedBlockWithTx(")
+		}, false)...)
+		behind = append(behind, core.TermEdges(pr, sx, func(s string, _ *core.Term) bool {
+			return strings.HasSuffix(s, " >= blockNum)") && strings.Contains(s, "getLastProcessedBlockWithTx(")
+		}, true)...)
+		var q ssa.Instruction
+		core.Instrs(pr, func(i ssa.Instruction) {
+			if core.CallName(i) == "github.com/russross/meddler.QueryRow" {
+				q = i
+			}
+		})
+		ok := q != nil && len(behind) > 0 && core.ReachableWithout(core.Entry(pr), behind, func(x ssa.Instruction) bool { return x == q }) == nil
+		c.Decide(ok, rule, "l1infotreesync.(*processor).GetLatestInfoUntilBlock#processed-first", pr.Pos(), "the leaf table is queried only when the last processed block has reached blockNum")
 	}
 }
 
@@ -196,10 +266,11 @@ func init() {
 	register(&Property{
 		ID:    "C15",
 		Level: "other",
-		Explanation: "Decides the structural necessary conditions of 'the oracle injects only finalized, current, not-yet-present roots': C15-gate — the only InjectGER call through the ChainSender interface is in processLatestGER, reachable only after IsGERInjected of the same value returned (false, nil), and that value is the root returned by a successful getLastFinalizedGER; C15-prov — that root is GetLatestInfoUntilBlock(ctx, n).GlobalExitRoot of a successful query, n is the number of the header sampled with the configured finality (HeaderByNumber(ctx, a.blockFinality), success edge) or the non-zero retry target, blockFinality is written only in New from ToBlockNum(), and the retry target is written only with getLastFinalizedGER's first result; C15-resample — the success path returns target 0 so the next tick samples finality again (keeps up with newer finalized roots), while the syncer-behind path returns the sampled block. Not decided: liveness under arbitrary relative speeds.",
+		Explanation: "Decides the structural necessary conditions of 'the oracle injects only finalized, current, not-yet-present roots': C15-gate — the only InjectGER call through the ChainSender interface is in processLatestGER, reachable only after IsGERInjected of the same value returned (false, nil), and that value is the root returned by a successful getLastFinalizedGER; C15-prov — that root is GetLatestInfoUntilBlock(ctx, n).GlobalExitRoot of a successful query, n is the number of the header sampled with the configured finality (HeaderByNumber(ctx, a.blockFinality), success edge) or the non-zero retry target, blockFinality is written only in New from ToBlockNum(), and the retry target is written only with getLastFinalizedGER's first result; C15-resample — the success path returns target 0 so the next tick samples finality again (keeps up with newer finalized roots), while the syncer-behind path returns the sampled block. the retry target is stored only on the success edge of the lookup or for ErrBlockNotProcessed, so it cannot stick on ErrNotFound / other errors; C15-until — the store's GetLatestInfoUntilBlock(n) selects the last leaf in chain order with block_num <= $1 bound to n, only after the last processed block reached n, and the façade passes n through. Not decided: liveness under arbitrary relative speeds.",
 		Rules: []Rule{
 			{ID: "C15-gate", Floor: 2, Run: c15Gate, Text: "[DOM]+[WHO] inject only after IsGERInjected(g) == (false, nil); g from a successful lookup"},
-			{ID: "C15-prov", Floor: 6, Run: c15Prov, Text: "[PROV]+[DOM] finality sample, queried block, result and retry target, finality field writers"},
+			{ID: "C15-prov", Floor: 7, Run: c15Prov, Text: "[PROV]+[DOM] finality sample, queried block, result and retry target (sticks only while the syncer is behind), finality field writers"},
+			{ID: "C15-until", Floor: 3, Run: c15Until, Text: "SQL+[PROV]: GetLatestInfoUntilBlock(n) = last leaf with block_num <= n, bound to n, only once block n was processed; façade pass-through"},
 		},
 	})
 }
